@@ -70,7 +70,10 @@ def ident_of(obj):
         return m.id
     if obj is None:
         return "~"
-    return "?" + canon(obj)[:60]
+    try:
+        return "?" + canon(obj)[:60]
+    except Exception:  # noqa
+        return "?<uncanon %s>" % type(obj).__name__
 
 
 class InjectedError(Exception):
@@ -81,11 +84,13 @@ class World:
     P_NULL = 0.12
     P_ABSENT = 0.1
 
-    def __init__(self, schema, seed, faults=None, sched=None, leafgen=None):
+    def __init__(self, schema, seed, faults=None, sched=None, leafgen=None, garbage=None, garbage_p=0.0):
         self.s, self.seed = schema, seed
         self.faults = faults or {}     # inst key -> fault spec (kind, item_index_path)
         self.sched = sched
         self.leafgen = leafgen         # optional adversarial leaf generator (C03)
+        self.garbage, self.garbage_p = garbage, garbage_p  # hostile value at any position
+        self.returns = []              # (response path, value returned by an explicit resolver)
         self.calls = []                # (T.f, parent ident, canon(args), id(ctx))
         self.tr_calls = []             # (level, abstract, Tparent.field)
         self.anomalies = []            # things a resolver saw that cannot be right
@@ -119,6 +124,8 @@ class World:
         return ("value", self.apply_fault(v, fault, T, fname, key), key)
 
     def gen_value(self, rng, t, ident, T, f, nonnull=False):
+        if self.garbage_p and rng.random() < self.garbage_p:
+            return self.garbage(rng)
         if t[0] == "NN":
             return self.gen_value(rng, t[1], ident, T, f, True)
         if not nonnull and rng.random() < self.P_NULL:
@@ -136,6 +143,11 @@ class World:
             return self.make_object(rng, name, ident, T, f, None)
         possible = self.s.possible_types(name)
         true_t = rng.choice(sorted(possible))
+        if self.garbage_p and rng.random() < self.garbage_p:
+            # hostile runtime type: an object type outside the possible types, or no type at all
+            foreign = [o.name for o in self.s.objects() if o.name not in possible]
+            return self.make_object(rng, true_t, ident, T, f, name,
+                                    override_name=rng.choice(foreign + ["NoSuchType_"]))
         return self.make_object(rng, true_t, ident, T, f, name)
 
     def leaf_value(self, rng, name):
@@ -313,6 +325,7 @@ class World:
             self.fired.append(out[2])
         if out[0] in ("raise", "raise_tf"):
             raise make_exception(out[0], out[2])
+        self.returns.append((tuple(info.path.as_list()), out[1]))
         return out[1]
 
     async def default_resolve(self, parent, args, ctx, info):
